@@ -39,8 +39,10 @@ fn launcher_exe(url: &str, prefix: usize, suffix: usize, terminated: bool) -> Ve
 
 fn build_registry() -> Registry {
     let ctx = Ctx::new("C17", Tier::Quick, 0, true);
+    // the thorough tier sweeps three times as many generated seed files per format
+    let k = global_tier().pick(1usize, 3usize);
     let mut seeds: Vec<SeedFile> = vec![];
-    let (cfgs, exls) = crate::props::c08::seed_files(&ctx, 3);
+    let (cfgs, exls) = crate::props::c08::seed_files(&ctx, 3 * k);
     for (n, b) in cfgs {
         seeds.push(SeedFile::new("cfg", n, b));
     }
@@ -49,7 +51,7 @@ fn build_registry() -> Registry {
     for (n, b) in exls {
         seeds.push(SeedFile::new("exl", n, b));
     }
-    let (presets, tables) = crate::props::c09::seed_files(&ctx, 2);
+    let (presets, tables) = crate::props::c09::seed_files(&ctx, 2 * k);
     for (n, b) in presets {
         seeds.push(SeedFile::new("chardat", n, b).magic(4));
     }
@@ -57,7 +59,7 @@ fn build_registry() -> Registry {
         let marks: Vec<u32> = std::iter::once(17u32).chain((0..=100u32).map(|k| 21 + 452 * k)).collect();
         seeds.push(SeedFile::new("gearsets", n, b).magic(4).marks(marks));
     }
-    let (fiins, boots, games) = crate::props::c10::seed_files(&ctx, 2);
+    let (fiins, boots, games) = crate::props::c10::seed_files(&ctx, 2 * k);
     for (n, b) in fiins {
         let marks: Vec<u32> = (0..=b.len() as u32 / 96).map(|k| 1024 + 96 * k).collect();
         seeds.push(SeedFile::new("fiin", n, b).magic(8).marks(marks));
@@ -81,7 +83,7 @@ fn build_registry() -> Registry {
     seeds.push(SeedFile::new("exe", "url-at-end", launcher_exe("https://launcher.finalfantasyxiv.com/v700/", 64, 0, false)));
     // patches
     let exps: Vec<(String, Vec<u8>)> = crate::props::c03::seed_exps().into_iter().map(|e| (format!("sqpack/{}/", e), vec![])).collect();
-    for (n, bytes, initial, eof_at) in crate::props::c03::seed_patches(&ctx, 4) {
+    for (n, bytes, initial, eof_at) in crate::props::c03::seed_patches(&ctx, 4 * k) {
         let mut tree = exps.clone();
         tree.extend(initial);
         let mut s = SeedFile::new("zipatch", n, bytes.clone());
@@ -411,8 +413,8 @@ pub fn property() -> Property {
             Box::new(Part { name: "leak-probes", driver: Driver::Enum(leak_probes), prop, exhaustive: false }),
             Box::new(Part { name: "truncations", driver: Driver::Enum(truncations), prop, exhaustive: true }),
             Box::new(Part { name: "fields", driver: Driver::Enum(fields), prop, exhaustive: true }),
-            Box::new(Part { name: "random-mutants", driver: Driver::Gen(mutants, 40_000, 1_000_000), prop, exhaustive: false }),
-            Box::new(Part { name: "random-blobs", driver: Driver::Gen(blobs, 4_000, 60_000), prop, exhaustive: false }),
+            Box::new(Part { name: "random-mutants", driver: Driver::Gen(mutants, 40_000, 3_000_000), prop, exhaustive: false }),
+            Box::new(Part { name: "random-blobs", driver: Driver::Gen(blobs, 4_000, 200_000), prop, exhaustive: false }),
         ],
         post: Some(post),
     }
